@@ -204,6 +204,15 @@ fn C11_out_of_phase_calls() {
                 let n = match w.write_message(&v.msgs[k].0, &mut buf) { Ok(n) => n, Err(e) => { finding("C11", format!("{}: in-turn write {} failed after out-of-turn calls: {:?}", v.name, k, e)); bad += 1; break; } };
                 if rd.read_message(&buf[..n], &mut p).is_err() { finding("C11", format!("{}: in-turn read {} failed after out-of-turn calls", v.name, k)); bad += 1; break; }
             } else {
+                // after the last message the indicators keep alternating and every call is the documented state error
+                use snow::error::StateProblem as SP;
+                if !w.is_my_turn() || rd.is_my_turn() { finding("C11", format!("{}: after the last handshake message is_my_turn() is {} for the party that read it and {} for the party that wrote it", v.name, w.is_my_turn(), rd.is_my_turn())); bad += 1; }
+                for _ in 0..2 {
+                    let got = (w.write_message(b"x", &mut buf), rd.read_message(&[0u8; 48], &mut p), w.read_message(&[0u8; 48], &mut p), rd.write_message(b"x", &mut buf));
+                    if got != (Err(Error::State(SP::HandshakeAlreadyFinished)), Err(Error::State(SP::HandshakeAlreadyFinished)), Err(Error::State(SP::NotTurnToRead)), Err(Error::State(SP::NotTurnToWrite))) {
+                        finding("C11", format!("{}: after the last handshake message write/read on the party whose turn it would be and read/write on the other return {:?} (documented: HandshakeAlreadyFinished, HandshakeAlreadyFinished, NotTurnToRead, NotTurnToWrite)", v.name, got)); bad += 1; break;
+                    }
+                }
                 match w.write_message(b"x", &mut buf) { Err(Error::State(_)) => {}, o => { finding("C11", format!("{}: write after the last handshake message returned {:?}", v.name, o)); bad += 1; } }
                 match rd.read_message(&[0u8; 48], &mut p) { Err(Error::State(_)) => {}, o => { finding("C11", format!("{}: read after the last handshake message returned {:?}", v.name, o)); bad += 1; } }
             }
@@ -619,7 +628,8 @@ fn c13_check(s: &str, bad: &mut usize) {
 fn C13_parser_grammar() {
     let mut bad = 0usize;
     let modlists = ["", "psk0", "psk1", "psk2", "psk3", "psk255", "fallback", "psk0+psk1", "psk1+psk0", "psk0+psk1+psk2", "fallback+psk0", "psk0+fallback",
-        "psk0+psk0", "psk1+psk01", "fallback+fallback", "psk01", "psk000", "psk256", "psk", "psk-1", "pskx", "+psk0", "psk0+", "psk0++psk1", "fallbac", "fallbackk", "Psk0", "hfs", "psk0+hfs", "1", "N", "K1", "X"];
+        "psk0+psk0", "psk1+psk01", "fallback+fallback", "psk01", "psk000", "psk256", "psk", "psk-1", "pskx", "+psk0", "psk0+", "psk0++psk1", "fallbac", "fallbackk", "Psk0", "hfs", "psk0+hfs", "1", "N", "K1", "X",
+        "pskpsk0", "pskpskpsk2", "psk0psk1", "psk0+psk3+psk0", "fallback+psk0+fallback", "psk1+psk2+psk01", "psk0+psk1+psk2+psk1", "psk0+psk1+psk2+psk3", "fallbackfallback", "psk1+fallback+psk2", "psk+0", "psk0+psk+1"];
     let mut valid_sample: Vec<String> = vec![];
     // the full product of components
     for e in TABLE.iter() { for m in modlists { for dh in ["25519", "448"] { for ci in ["ChaChaPoly", "AESGCM"] { for ha in ["SHA256", "SHA512", "BLAKE2s", "BLAKE2b"] {
@@ -648,7 +658,16 @@ fn C13_parser_grammar() {
             }
             if bad >= 6 { assert_eq!(bad, 0); }
         }
+        // every substring of up to 9 chars duplicated in place, moved to the end of its section, or deleted
+        for start in 0..cs.len() { for len in 2..=9usize { if start + len <= cs.len() {
+            let mut t = cs.clone(); for (k, ch) in cs[start..start + len].iter().enumerate() { t.insert(start + len + k, *ch); } c13_check(&t.iter().collect::<String>(), &mut bad);
+            let mut t = cs.clone(); t.drain(start..start + len); c13_check(&t.iter().collect::<String>(), &mut bad);
+        } } }
     }
+    // modifier lists with a repeated element at any distance
+    for a in ["psk0", "psk1", "psk3", "fallback", "psk01"] { for b in ["psk2", "fallback", "psk1"] { for c in ["psk0", "psk1", "fallback", "psk001", "psk3"] {
+        c13_check(&format!("Noise_XX{}+{}+{}_25519_AESGCM_SHA256", a, b, c), &mut bad); c13_check(&format!("Noise_NK1{}+{}+{}+{}_25519_ChaChaPoly_BLAKE2b", a, b, c, a), &mut bad);
+    } } }
     // as_str / from_str round trip on the pattern enum
     for e in TABLE.iter() {
         match e.0.parse::<HandshakePattern>() { Ok(p) => if p.as_str() != e.0 { finding("C13", format!("HandshakePattern {:?} prints as {:?}", e.0, p.as_str())); bad += 1; }, Err(_) => { finding("C13", format!("pattern name {:?} is rejected", e.0)); bad += 1; } }
@@ -706,6 +725,19 @@ fn C05_C09_stateful_delivery_and_nonces() {
             if r1 != Err(Error::State(snow::error::StateProblem::Exhausted)) || rcv.receiving_nonce() != u64::MAX { finding("C09", format!("{}: at receiving nonce 2^64-1 read returned {:?} and the nonce is now {}", name, r1, rcv.receiving_nonce())); bad += 1; }
             let r2 = rcv.read_message(&msgs[0], &mut p);
             if r2 != Err(Error::State(snow::error::StateProblem::Exhausted)) || rcv.receiving_nonce() != u64::MAX { finding("C09", format!("{}: second read at 2^64-1 returned {:?}, nonce {}", name, r2, rcv.receiving_nonce())); bad += 1; }
+            // counting INTO the reserved value: a genuine message under nonce 2^64-2 (written by a stateless twin of the sender) is
+            // accepted, the counter becomes 2^64-1, and from then on every read is refused with Exhausted and the counter stays
+            {
+                let (i3, r3) = finished_pair(name);
+                let (tw, mut tr3) = if resp_sends { (r3.into_stateless_transport_mode().unwrap(), i3.into_transport_mode().unwrap()) } else { (i3.into_stateless_transport_mode().unwrap(), r3.into_transport_mode().unwrap()) };
+                let n = tw.write_message(u64::MAX - 1, b"last one", &mut buf).unwrap(); let last = buf[..n].to_vec();
+                tr3.set_receiving_nonce(u64::MAX - 1);
+                match tr3.read_message(&last, &mut p) { Ok(8) => {}, o => { finding("C09", format!("{}: the message numbered 2^64-2 is not accepted at receiving nonce 2^64-2: {:?}", name, o)); bad += 1; } }
+                for m in [&last[..], &[0x33u8; 40][..]] {
+                    let r3 = tr3.read_message(m, &mut p);
+                    if r3 != Err(Error::State(snow::error::StateProblem::Exhausted)) || tr3.receiving_nonce() != u64::MAX { finding("C09", format!("{}: after the counter has counted up to 2^64-1 a read returns {:?} (nonce now {}) instead of Exhausted: the reserved nonce is used for decryption", name, r3, tr3.receiving_nonce())); bad += 1; break; }
+                }
+            }
             rcv.set_receiving_nonce(u64::MAX - 1);
             let _ = rcv.read_message(&msgs[0], &mut p);
             if rcv.receiving_nonce() != u64::MAX - 1 { finding("C09", format!("{}: a rejected read at nonce 2^64-2 moved the counter to {}", name, rcv.receiving_nonce())); bad += 1; }
@@ -733,7 +765,7 @@ fn C04_C16_stateless_and_authentication() {
                 if l != len + 16 { finding("C14", format!("{}: stateless write of {} bytes returned {}", name, len, l)); bad += 1; }
                 match sr.read_message(n, &buf[..l], &mut p) { Ok(k) if &p[..k] == &payload[..] => {}, o => { finding("C16", format!("{}: message written under nonce {} ({} bytes) is not read back under the same nonce: {:?}", name, n, len, o)); bad += 1; } }
                 for &m in &nonces { if m != n && sr.read_message(m, &buf[..l], &mut p).is_ok() { finding("C04", format!("{}: a message written under nonce {:#x} is accepted under nonce {:#x}", name, n, m)); bad += 1; break; } }
-                if !is_oneway(name) && si.read_message(n, &buf[..l], &mut p).is_ok() { finding("C04", format!("{}: a message reflected to its sender is accepted (nonce {})", name, n)); bad += 1; }
+                if si.read_message(n, &buf[..l], &mut p).is_ok() { finding("C04", format!("{}: a message reflected to its sender is accepted (nonce {})", name, n)); bad += 1; }
                 if l > 0 { let mut t = buf[..l].to_vec(); t[l - 1] ^= 1; if sr.read_message(n, &t, &mut p).is_ok() { finding("C04", format!("{}: modified message accepted", name)); bad += 1; } if sr.read_message(n, &buf[..l - 1], &mut p).is_ok() { finding("C04", format!("{}: truncated message accepted", name)); bad += 1; } }
             }
         }
@@ -1180,6 +1212,35 @@ fn C10_transport_setters_and_conversions_never_panic() {
             let mut hs = Some((i, r));
             check(format!("{}: into_transport_mode / into_stateless_transport_mode after {} of {} messages", name, k, nh), &mut || { let (i, r) = hs.take().unwrap(); let _ = i.into_transport_mode(); let _ = r.into_stateless_transport_mode(); });
         }
+    }
+    assert_eq!(bad, 0);
+}
+
+#[test]
+fn C14_C16_largest_transport_messages() {
+    let mut bad = 0;
+    for name in TNAMES {
+        let (i, r) = finished_pair(name); let (i2, r2) = finished_pair(name);
+        let (mut ti, mut tr) = (i.into_transport_mode().unwrap(), r.into_transport_mode().unwrap());
+        let (si, sr) = (i2.into_stateless_transport_mode().unwrap(), r2.into_stateless_transport_mode().unwrap());
+        let mut buf = vec![0u8; 70000]; let mut b2 = vec![0u8; 70000]; let mut p = vec![0u8; 70000];
+        for plen in [65503usize, 65504, 65518, 65519] {
+            let payload = vec![(plen % 251) as u8; plen];
+            match (ti.write_message(&payload, &mut buf), si.write_message(0, &payload, &mut b2)) {
+                (Ok(a), Ok(b)) if a == plen + 16 && b == plen + 16 => {
+                    match sr.read_message(0, &b2[..b], &mut p) { Ok(l) if l == plen && p[..l] == payload[..] => {}, o => { finding("C16", format!("{}: a {}-byte payload ({}-byte message, within the 65535 limit) written in stateless mode is not read back: {:?}", name, plen, b, o.map(|_| "wrong payload"))); bad += 1; } }
+                    match tr.read_message(&buf[..a], &mut p) { Ok(l) if l == plen && p[..l] == payload[..] => {}, o => { finding("C14", format!("{}: a {}-byte payload ({}-byte message, within the 65535 limit) is not read back by the stateful receiver: {:?}", name, plen, a, o.map(|_| "wrong payload"))); bad += 1; } }
+                },
+                o => { finding("C14", format!("{}: writing a {}-byte transport payload (message of {} bytes <= 65535) returned {:?}", name, plen, plen + 16, o)); bad += 1; }
+            }
+            ti = { let (i, _) = finished_pair(name); i.into_transport_mode().unwrap() }; tr = { let (_, r) = finished_pair(name); r.into_transport_mode().unwrap() };
+        }
+        for plen in [65520usize, 65535, 65536] {
+            let payload = vec![1u8; plen];
+            if ti.write_message(&payload, &mut buf) != Err(Error::Input) || si.write_message(0, &payload, &mut b2) != Err(Error::Input) { finding("C14", format!("{}: a {}-byte transport payload (message would exceed 65535) is not refused with Input", name, plen)); bad += 1; }
+        }
+        if tr.read_message(&vec![0u8; 65536], &mut p) != Err(Error::Input) || sr.read_message(0, &vec![0u8; 65536], &mut p) != Err(Error::Input) { finding("C14", format!("{}: a 65536-byte transport message is not refused with Input", name)); bad += 1; }
+        if bad >= 4 { break; }
     }
     assert_eq!(bad, 0);
 }
